@@ -35,15 +35,39 @@ import GqlModel.Validate.Spec.Links
                                   parent = definition of the type condition) — this is what links
                                   the variables used there to the operation's variable definitions
 
-  NOT finished (kept as the goal):
+    C09_value_links_correct       (a) the value events of a run are exactly the value nodes the
+                                  specification lists, with the expected type and definition it
+                                  demands (list items, input-object fields, list-coerced single
+                                  values, custom-scalar contents excepted, variable defaults)
+    C09_variable_use_links_correct (b) `Value.VariableDefinition`: own event, last write wins (which
+                                  operation wins when a fragment is shared — the C15 finding), never
+                                  written, every use in the scope of an operation is walked on its
+                                  behalf (fragments reached transitively included);
+    C09_variable_use_links_agreeing   one operation / identically declaring operations
+    C09_variable_definition_links_correct (c)
+    C09_inline_fragment_link_is_parent, C09_inline_fragment_link_counterexample (d) the known finding
+    C09_links_correct             (e) the capstone: `Spec.expectedLinks` is the rendering of the
+                                  structured demands `docDemands`; for a valid document on a closed
+                                  schema every demand is met by an event, every variable use shows an
+                                  admissible candidate, and every demanded link is present
+  Proof files: `GqlProofs/ValSpec/{ValueLinks,Built,Reach,VarLinks,ValueDoc,VarUses,Demands,Capstone,
+  ReachSpec,VarCands,Present,LinkWitness}.lean`.
+
+  What is still NOT proved (kept as the goal):
     C09_links_complete : Closed s → validate defaultRules s d = .ok [] →
         Spec.linksComplete s d (linkDump evs) = true
-  One part of it is FALSE for the current tree and is reported by the check on the real walker
-  (known finding): an inline fragment carries the ENCLOSING type, not its type condition's
-  definition (`link-wrong:inlineFragment:obj`).  (A variable used in the directives of a fragment
-  definition used to be never linked — `link-missing:value:var`; the walker now walks those
-  directives on the first visit of the fragment in every operation, `walkSelection` `.spread`.)
-  For field / value links the missing lemma is `walk_parent_type` (see C08.lean).
+  It is FALSE as it stands for the current tree — an inline fragment carries the ENCLOSING type, not
+  its type condition's definition (`link-wrong:inlineFragment:obj`, reported by the check on the real
+  walker: known finding).  Apart from that finding, what separates `C09_links_correct` from it is
+  (1) the string layer: `linkDump` prints one line per node and `linkscheck` parses it again (the
+  theorem is about the events and the structured demands on both sides of that printing);
+  (2) node identity: the dump keeps the LAST event of every (start offset, kind) — the theorem gives
+  an event about the very node; that all events about one node carry the same context-determined
+  link needs "distinct nodes start at distinct offsets", which only the variable-use theorems state
+  (`VarStartsDistinct`, `FragPosDistinct`); for `Value.VariableDefinition`, the one link that is not
+  context-determined, the final state is described exactly by `C09_variable_use_links_correct`;
+  (3) `Spec.wellParented`, KnownRootType and KnownTypeNames are hypotheses, not yet consequences of
+  `validate … = .ok []` (no C08 equivalence for these rules yet).
 -/
 open Gql Gql.Validate Gql.Validate.Rules
 
@@ -359,3 +383,113 @@ theorem C09_links_correct (s : Schema) (d : QueryDoc) (evs : List Event) (hw : w
     (∀ dm ∈ docDemands s d, dm.Present s d) :=
   ⟨expectedLinks_eq s d, docDemands_met s d evs hw hwp hk, docDemands_var_met s d evs hw hwp hpos,
    docDemands_present s d hs hString (linkRules_of_valid s d hvalid hwp hk hKnownRootType hKnownTypeNames)⟩
+
+/-! ## Non-vacuity: the hypotheses are satisfiable (kernel-checked documents) -/
+
+section NonVacuity
+open Gql.Validate.LinkWitness Gql.Validate.Witness
+
+/-- `docV` — `query ($v: Int = 3, $b: Boolean!) { f(l: {xs: [1, $v]}, a: {k: [1]}, n: 5) @include(if: $b) }`
+    against `scalar Any  input In { xs: [Int] any: Any sub: In }  type Query { f(l: [In], i: In, a: Any, n: [Int]): Int }` —
+    satisfies every hypothesis of `C09_links_correct` (and of the theorems (a)–(d)) -/
+example :
+    validate defaultRules schemaV docV = .ok [] ∧ Gql.Spec.Closed schemaV ∧
+    (schemaV.type? (str "String")).isSome ∧ Spec.wellParented schemaV docV = true ∧
+    (∀ op ∈ docV.ops, op.op ∈ parserOpKinds) ∧ FragPosDistinct docV ∧ Spec.knownRootType schemaV docV = true ∧
+    (Spec.variableTypesExist schemaV docV = true ∧ Spec.fragmentSpreadTypeExistence schemaV docV = true) ∧
+    (∀ op ∈ docV.ops, ∀ op' ∈ docV.ops, ∀ raw, Spec.varDefByName op raw = Spec.varDefByName op' raw) ∧
+    ((walkDoc schemaV.view docV).map varStartsDistinctB = some true) := by
+  refine ⟨by decide +kernel, ?_, by decide +kernel, by decide +kernel, by decide +kernel, ?_, by decide +kernel,
+    ⟨by decide +kernel, by decide +kernel⟩, ?_, by decide +kernel⟩
+  · refine ⟨by decide +kernel, by decide +kernel, by decide +kernel, by decide +kernel, by decide +kernel,
+      by decide +kernel, by decide +kernel, ⟨fun n h => ?_, fun n h => ?_, fun n h => ?_⟩, by decide +kernel,
+      by decide +kernel⟩
+    · cases h; decide +kernel
+    · cases h
+    · cases h
+  · intro f hf
+    cases hf
+  · intro op hop op' hop' raw
+    simp only [docV, List.mem_singleton] at hop hop'
+    rw [hop, hop']
+
+/-- what the specification lists for the argument `l: {xs: [1, $v]}` where `[In]` is expected (a
+    single value in a list position): the object keeps the LIST type `[In]` with the definition of
+    `In`; its field `xs` gets `[Int]` / `Int`; the items `1` and `$v` get the element type `Int` and
+    the same definition.  By `C09_value_links_correct` the walker's events carry exactly these. -/
+example :
+    (valOccs schemaV true (some (tList (tNamed "In"))) (schemaV.type? (str "In")) valL).map
+      (fun o => (o.v.pos.start, o.typed, o.exp.map (·.render), o.dfn.map (·.name))) =
+    [(30, true, some (str "[In]"), some (str "In")), (35, true, some (str "[Int]"), some (str "Int")),
+     (36, true, some (str "Int"), some (str "Int")), (39, true, some (str "Int"), some (str "Int"))] := by
+  decide +kernel
+
+/-- … and for `a: {k: [1]}` where the custom scalar `Any` is expected: the literal itself is typed,
+    its contents are not demanded -/
+example :
+    (valOccs schemaV true (some (tNamed "Any")) (schemaV.type? (str "Any")) valA).map
+      (fun o => (o.v.pos.start, o.typed, o.exp.map (·.render), o.dfn.map (·.name))) =
+    [(47, true, some (str "Any"), some (str "Any")), (51, false, none, none), (52, false, none, none)] := by
+  decide +kernel
+
+/-- the walker on `docV`: every value event with its expected type and definition (custom-scalar
+    contents at 51, 52 carry nothing; the single value `5` where `[Int]` is expected keeps `[Int]`) -/
+example :
+    (walkDoc schemaV.view docV).map (fun evs => evs.filterMap fun e =>
+      match e.p with
+      | .value v exp dfn => some (v.pos.start, exp.map (·.render), dfn.map (·.name))
+      | _ => none) =
+    some [(17, some (str "Int"), some (str "Int")), (36, some (str "Int"), some (str "Int")),
+          (39, some (str "Int"), some (str "Int")), (35, some (str "[Int]"), some (str "Int")),
+          (30, some (str "[In]"), some (str "In")), (52, none, none), (51, none, none),
+          (47, some (str "Any"), some (str "Any")), (61, some (str "[Int]"), some (str "Int")),
+          (77, some (str "Boolean!"), some (str "Boolean"))] := by
+  decide +kernel
+
+/-- `docS` — `query A($v: Int) { ...F } query B($v: Int = 2) { ...F } fragment F on Query { args(l: [$v], c: {v: $v}) }` —
+    satisfies the hypotheses of `C09_links_correct` with TWO operations sharing a fragment.  (The
+    model of NoFragmentCycles is defined by well-founded recursion, which the kernel does not
+    evaluate in reasonable time on a document with a fragment; its verdict is given through the
+    specification predicate.  `vcheck -prop C09` validates this very document with the real library.) -/
+example :
+    validate (defaultRules.filter fun r => r.name != str "NoFragmentCycles") schemaS docS = .ok [] ∧
+    Spec.noFragmentCycles docS = true ∧ Gql.Spec.Closed schemaS ∧
+    Spec.wellParented schemaS docS = true ∧ FragPosDistinct docS ∧ Spec.knownRootType schemaS docS = true ∧
+    (Spec.variableTypesExist schemaS docS = true ∧ Spec.fragmentSpreadTypeExistence schemaS docS = true) := by
+  refine ⟨by decide +kernel, by decide +kernel, ?_, by decide +kernel, ?_, by decide +kernel,
+    ⟨by decide +kernel, by decide +kernel⟩⟩
+  · refine ⟨by decide +kernel, by decide +kernel, by decide +kernel, by decide +kernel, by decide +kernel,
+      by decide +kernel, by decide +kernel, ⟨fun n h => ?_, fun n h => ?_, fun n h => ?_⟩, by decide +kernel,
+      by decide +kernel⟩
+    · cases h; decide +kernel
+    · cases h
+    · cases h
+  · intro f hf g hg _
+    simp only [docS, List.mem_singleton] at hf hg
+    rw [hf, hg]
+
+/-- which operation wins (the recorded C15 finding), kernel-checked on `docS`: the two uses of `$v`
+    inside the shared fragment `F` (offsets 90 and 102) are walked three times — on behalf of `A`
+    (they show `A`'s definition, offset 8), on behalf of `B` (they show `B`'s, offset 36) and
+    stand-alone (`CurrentOperation = nil`: they keep `B`'s).  After the run the document is linked to
+    the definition of the operation walked LAST; both are among the specification's candidates. -/
+example :
+    (walkDoc schemaS.view docS).map (fun evs => evs.filterMap fun e =>
+      match e.p with
+      | .value (.mk .variable _ _ p) _ _ =>
+        some (p.start, e.cur.map (·.name), (e.links.varDef p.start).map (·.pos.start))
+      | _ => none) =
+    some [(90, some (str "A"), some 8), (102, some (str "A"), some 8),
+          (90, some (str "B"), some 36), (102, some (str "B"), some 36),
+          (90, none, some 36), (102, none, some 36)] := by
+  decide +kernel
+
+end NonVacuity
+
+#print axioms C09_value_links_correct
+#print axioms C09_variable_use_links_correct
+#print axioms C09_variable_use_links_agreeing
+#print axioms C09_variable_definition_links_correct
+#print axioms C09_inline_fragment_link_is_parent
+#print axioms C09_inline_fragment_link_counterexample
+#print axioms C09_links_correct
